@@ -225,6 +225,8 @@ func (c flagCase) String() string { return c.mode + " " + strings.Join(c.flags, 
 
 // cliSuite: flag combinations through the real cobra command; accepted ones run
 // for a few ticks in virtual time.
+const startTimeLayout = "2006-01-02T15:04:05+07:00"
+
 func cliSuite(full bool) hlib.Suite {
 	return hlib.Suite{Name: fmt.Sprintf("cli-flags/full=%v", full), Weight: 4, Run: func(r *hlib.Rec) {
 		var cases []flagCase
@@ -257,6 +259,12 @@ func cliSuite(full bool) hlib.Suite {
 		prod("constant", []string{"", "--rate 1/100ms", "--rate 0/s", "--rate 5/0s", "--rate -1/s", "--rate x", "--rate 5/", "--rate 5/.5s", "--rate 2/0.5s"}, dist, jit, conc, dur)
 		prod("staged", []string{"", "--stages 0s:1,1s:1", "--stages 1s:0", "--stages x", "--stages 1s", "--stages -1s:1", "--stages 1s:-1", "--stages ,", "--stages 0s:-3,1s:-3"},
 			[]string{"", "--iterationFrequency 100ms", "--iterationFrequency 0s", "--iterationFrequency -1s", "--iterationFrequency 10ms", "--iterationFrequency 200ms"}, distAll, conc[:2], dur[:2])
+		// --startTime (layout 2006-01-02T15:04:05+07:00, the zone suffix is literal): in the past, a moment ahead, an hour ahead,
+		// malformed; with the default stages (which begin with a zero-length stage) and with others
+		past, soon, later := vtime.Epoch.Add(-time.Hour).Format(startTimeLayout), vtime.Epoch.Add(time.Second).Format(startTimeLayout), vtime.Epoch.Add(time.Hour).Format(startTimeLayout)
+		prod("staged", []string{"", "--stages 0s:1,1s:1", "--stages 0s:5,0s:7,1s:1", "--stages 1s:3", "--stages 0s:-3,1s:-3"},
+			[]string{"--startTime " + past, "--startTime " + soon, "--startTime " + later, "--startTime yesterday", "--startTime 2024-01-01T00:00:00Z"},
+			[]string{"", "--iterationFrequency 100ms"}, []string{"", "--distribution none"}, dur[:1])
 		prod("ramp", []string{"", "--start-rate 0/s --end-rate 2/s", "--start-rate 1/100ms --end-rate 3/100ms", "--start-rate 1/s --end-rate 2/m", "--start-rate x", "--start-rate 1/0s --end-rate 2/0s", "--end-rate 5/"},
 			[]string{"", "--ramp-duration 1s", "--ramp-duration 0s", "--ramp-duration -1s", "--ramp-duration 50ms"}, dist, conc[:2], dur[:2])
 		prod("gaussian", []string{"", "--volume 100", "--volume 0", "--volume -5"},
